@@ -43,7 +43,7 @@ def rule_r1(ck, prog, cls_suffix, method):
         raise AnalysisBroken('%s::%s vanished' % (cls_suffix, method))
     n_sites = 0
     for f in fs:
-        g = Graph(prog, f, inline=same_class_inline(prog, rec['qn']), max_depth=3)
+        g = Graph(prog, f, inline=same_class_inline(prog, rec['qn']), max_depth=5)
         held = held_locks(g)
         for p in g.calls(EXPORTER_EXPORT):
             n_sites += 1
@@ -202,6 +202,14 @@ def _bounded(prog, g, rd, p_use, f, idx, bound_field, ctx, depth=0, seen=None):
         return False
     if is_bound(i):
         return True, 'the batch bound itself', None
+    if k == 'ref' and n.get('sk') == 'param' and ctx is not None and ctx.call is not None and not ctx.lambda_of:
+        # a parameter of an inlined private helper: judge the argument it is bound to, in the caller
+        for pi, prm in enumerate(f.params):
+            if prm['id'] == n.get('id'):
+                args = ctx.call.get('args', [])
+                if pi < len(args) and args[pi] is not None and args[pi] >= 0:
+                    cpt = g.point_of.get((id(ctx.parent), ctx.call['i']))
+                    return _bounded(prog, g, rd, cpt or p_use, ctx.caller, args[pi], bound_field, ctx.parent, depth + 1, seen)
     if k == 'cond':
         cmp_ = comparison(f, n['cnd'])
         if cmp_:
@@ -325,7 +333,7 @@ def rule_r3_r4(ck, prog, cg, roles):
     unbounded_pending = False
     for t in roles.thread_entries:
         tf = prog.funcs[t]
-        g = Graph(prog, tf, inline=same_class_inline(prog, roles.cls), max_depth=3)
+        g = Graph(prog, tf, inline=same_class_inline(prog, roles.cls), max_depth=5)
         rd = reaching_defs(g)
         consumes = g.calls('CircularBuffer::Consume')
         exports = [p for p in g.calls(EXPORTER_EXPORT)]
@@ -346,7 +354,7 @@ def rule_r3_r4(ck, prog, cg, roles):
                 ck.holds('C03.R3', f, 'consume-count', cp.n, 'count passed to Consume is bounded by %s (%s)' % (roles.bound_field, why))
             elif v is False:
                 unbounded_pending = unbounded_pending or where == 'pending-flush-branch'
-                ck.violation('C03.R3', f, site, dp.n if dp is not None else cp.n,
+                ck.violation('C03.R3', dp.f if dp is not None else f, site, dp.n if dp is not None else cp.n,
                              'a definition of the batch count reaching Consume is not bounded by %s: %s' % (roles.bound_field, why),
                              path=g.describe_path(g.path(dp, cp) or []) if dp is not None else None)
                 # the other reaching definitions are still checked: report a HOLDS/next verdict for them
@@ -358,10 +366,10 @@ def rule_r3_r4(ck, prog, cg, roles):
                     seen_sites.add((f.key, osite))
                     n3 += 1
                     if ov is True:
-                        ck.holds('C03.R3', f, osite, odp.n, owhy)
+                        ck.holds('C03.R3', odp.f, osite, odp.n, owhy)
                     elif ov is False:
                         unbounded_pending = unbounded_pending or osite.endswith('@pending-flush-branch')
-                        ck.violation('C03.R3', f, osite, odp.n, 'unbounded definition: %s' % owhy)
+                        ck.violation('C03.R3', odp.f, osite, odp.n, 'unbounded definition: %s' % owhy)
                     else:
                         ck.inconclusive('C03.R3', f, osite, odp.n, owhy)
             else:
@@ -369,7 +377,7 @@ def rule_r3_r4(ck, prog, cg, roles):
             # R4: export dominated by the non-zero test of the same count variable
             cn = strip_casts(f, arg)
             for ep in exports:
-                if ep.ctx is not cp.ctx:
+                if g.unit_ctx(ep.ctx, exports) is not g.unit_ctx(cp.ctx, exports):
                     continue
                 site4 = 'export-nonempty'
                 if (ep.f.key, site4) in seen_sites:
@@ -379,13 +387,16 @@ def rule_r3_r4(ck, prog, cg, roles):
                 if cn['k'] != 'ref':
                     ck.inconclusive('C03.R4', ep.f, site4, ep.n, 'count passed to Consume is not a local variable')
                     continue
-                vid = cn['id']
+                vids = g.canon_var(cn['id']) | {cn['id']}
 
-                def nz_edge(p, q, lab, _vid=vid):
+                def nz_edge(p, q, lab, _vids=vids):
                     if not lab or not isinstance(lab[0], int):
                         return False
-                    pol = nonzero_polarity(lab[1], lab[0], _vid)
-                    return pol is not None and pol == lab[2]
+                    for _vid in _vids:
+                        pol = nonzero_polarity(lab[1], lab[0], _vid)
+                        if pol is not None and pol == lab[2]:
+                            return True
+                    return False
                 if g.must_pass_edge(ep, nz_edge):
                     ck.holds('C03.R4', ep.f, site4, ep.n, 'Export dominated by the non-zero outcome of a test of %s' % cn['name'])
                 else:
